@@ -91,23 +91,22 @@ impl TagExpr {
 
 /// `(N, delay)` parts of a `@retry…` tag: `Some((num, after))`.
 pub fn parse_retry_tag(tag: &str) -> Option<(Option<usize>, Option<Duration>)> {
-    let rest = tag.strip_prefix("retry")?;
-    let (num, rest) = if let Some(r) = rest.strip_prefix('(') {
-        match r.split_once(')') {
-            Some((n, rest2)) => match n.parse::<usize>() {
-                Ok(n) => (Some(n), rest2),
-                Err(_) => (None, rest),
-            },
-            None => (None, rest),
-        }
-    } else {
-        (None, rest)
-    };
-    let after = rest.strip_prefix(".after(").and_then(|a| {
-        let (d, _) = a.split_once(')')?;
-        parse_dur(d)
-    });
-    Some((num, after))
+    // exactly `retry`, `retry(N)`, `retry.after(D)` or `retry(N).after(D)`; a tag that
+    // merely starts with `retry` (`retryable`) is an ordinary tag
+    let mut rest = tag.strip_prefix("retry")?;
+    let mut num = None;
+    if let Some(r) = rest.strip_prefix('(') {
+        let (n, rest2) = r.split_once(')')?;
+        num = Some(n.parse::<usize>().ok()?);
+        rest = rest2;
+    }
+    let mut after = None;
+    if let Some(a) = rest.strip_prefix(".after(") {
+        let (d, rest2) = a.split_once(')')?;
+        after = Some(parse_dur(d)?);
+        rest = rest2;
+    }
+    rest.is_empty().then_some((num, after))
 }
 
 /// Durations of the small alphabet used by the harness: `<int>s`, `<int>ms`, `<int>m`.
@@ -200,7 +199,7 @@ pub enum WorldObs {
 }
 
 pub const AMBIG_RENDER: &str =
-    r"Ambiguous[^ambig-(step|bg|rbg) (\S+) (\d+)$ | ^ambig-\S+ .*$]";
+    r"Ambiguous[^ambig-(step|bg|rbg) (\S+) (\d+)$@1 | ^ambig-(step|bg|rbg) (\S+) (\d+)$@2 | ^ambig-\S+ .*$]";
 
 pub fn panic_payload(o: Outcome, key: &str, inv: usize) -> String {
     match o {
